@@ -15,5 +15,27 @@ for f in sorted(glob.glob(os.path.join(V, "notes", "C*.md"))):
     # demote headings so that each note nests under its own ### heading
     body = re.sub(r"^(#+) ", lambda m: "#" * min(6, len(m.group(1)) + 3) + " ", body, flags=re.M)
     out.append("### 10.%s — notes/%s.md\n\n%s\n" % (pid, pid, body))
+# section 11: known findings as recorded, and the seeded-change table
+import json
+kf = []
+for line in open(os.path.join(V, "known_findings.jsonl")):
+    line = line.strip()
+    if line and not line.startswith("#"):
+        kf.append(json.loads(line))
+out.append("## 11. Outcome: defects of spikeekips/mitum found by the build (from known_findings.jsonl)\n")
+out.append("Every entry was reproduced on the real code with the input named in it before being fixed or recorded. `fixed` = repaired by a")
+out.append("`fix:` commit in /repo (suppresses nothing; the check reports the violation again if it returns). `open` = recorded, not repaired")
+out.append("(not a small safe patch: protocol or design decision needed); the check prints `KNOWN-FINDING:` for it and still exits 1 for any violation outside the class.\n")
+out.append("| property | status | commit / class | what |")
+out.append("|---|---|---|---|")
+for k in sorted(kf, key=lambda k: (k["property"], k.get("status", ""))):
+    what = k.get("what", "").replace("|", "/").replace("\n", " ")
+    out.append("| %s | %s | %s | %s |" % (k["property"], k.get("status", "open"), k.get("commit") or k.get("class", ""), what[:600]))
+out.append("")
+rs = os.path.join(V, "seeded", "RESULTS.md")
+if os.path.exists(rs):
+    body = open(rs).read()
+    body = body.replace("# Seeded breaking changes and which checks catch them", "## 12. Seeded breaking changes and which checks catch them (seeded/RESULTS.md)")
+    out.append(body)
 open(os.path.join(V, "DESIGN.md"), "w").write(head + "\n".join(out))
 print("merged", len(out) - 1, "notes")
